@@ -213,16 +213,103 @@ def compile_one(item):
 
 work = json.load(open(workfile))
 # warm-up: the first compilation imports most of the compiler and loads the utility code (seconds; much more on a
-# loaded machine); it must not be charged to the first text's time limit
+# loaded machine); it is not charged to any text.  Every text is then compiled in a forked copy of this warmed-up
+# process: no compiler state leaks from one text to the next, and a hard crash or a hang only costs the copy.
+WARMUP = b"""
+import os
+async def co(a):
+    async with a as b:
+        async for c in b:
+            await c
+def gen(x, *a, k=1, **kw):
+    "doc"
+    try:
+        with x as y:
+            yield from (i for i in [j for j in x if j] if i)
+    except (ValueError, TypeError) as e:
+        raise KeyError(f'{e!r:>{k}}') from e
+    finally:
+        del y
+    def inner():
+        nonlocal x
+        x = lambda q=k: {q: x}, {*a}, x[1:2]
+        return x
+    match x:
+        case [1, *r] | {'a': r}:
+            return r
+        case str(s) if s:
+            return s % (1, 2.5, 'a' 'b', b'c')
+class K(dict, metaclass=type):
+    z: int = 3
+    @property
+    def p(self):
+        return super().get(self.z) is not None and -self.z ** 2 // 3 in (1, 2)
+for i in range(10):
+    while i:
+        i -= 1
+        if i > 5: break
+        elif i < 2: continue
+    else:
+        assert i == 0, 'x'
+print(*[1, 2], sep='')
+"""
 _saved = per_text_timeout
 per_text_timeout = 0
-compile_one({"id": -1, "b64": base64.b64encode(b"def f(x):\n    return [x for x in (1, 'a')]\n").decode(), "kind": "py"})
+_w = compile_one({"id": -1, "b64": base64.b64encode(WARMUP).decode(), "kind": "py"})
+assert _w["final"]["cfile"], ("warm-up module does not compile", _w["errors"], _w["escaped"])
 per_text_timeout = _saved
 from Cython.Compiler import ExprNodes, MatchCaseNodes, Nodes, ModuleNode, Optimize, FlowControl
 repatch()
+import resource
+
+def in_fork(item):
+    r, w = os.pipe()
+    pid = os.fork()
+    if pid == 0:
+        code = 0
+        try:
+            os.close(r)
+            if per_text_timeout:
+                # backup for hangs inside C code, where the SIGPROF handler cannot run
+                resource.setrlimit(resource.RLIMIT_CPU, (per_text_timeout * 2 + 10, per_text_timeout * 2 + 20))
+            try:
+                rec = compile_one(item)
+            except BaseException as e:
+                rec = {"id": item["id"], "died": "driver: %s: %s" % (type(e).__name__, str(e)[:200])}
+            data = json.dumps(rec).encode()
+            off = 0
+            while off < len(data):
+                off += os.write(w, data[off:off + 65536])
+        except BaseException:
+            code = 3
+        finally:
+            os._exit(code)
+    os.close(w)
+    chunks = []
+    while True:
+        c = os.read(r, 1 << 16)
+        if not c:
+            break
+        chunks.append(c)
+    os.close(r)
+    _, status = os.waitpid(pid, 0)
+    rec = None
+    if chunks:
+        try:
+            rec = json.loads(b"".join(chunks))
+        except ValueError:
+            rec = None
+    if rec is None:
+        if os.WIFSIGNALED(status):
+            sig = os.WTERMSIG(status)
+            rec = {"id": item["id"], "died": ("cpu limit (signal %d)" if sig in (signal.SIGXCPU, signal.SIGKILL) else "signal %d") % sig}
+        else:
+            rec = {"id": item["id"], "died": "exit %d" % os.WEXITSTATUS(status)}
+    return rec
+
 with open(outfile, "a") as out:
     for item in work:
-        rec = compile_one(item)
+        rec = in_fork(item)
         out.write(json.dumps(rec) + "\n")
         out.flush()
     out.write(json.dumps({"done": len(work)}) + "\n")
